@@ -2,7 +2,8 @@
    Property theorems only. *)
 From Coq Require Import List Bool Arith String.
 Import ListNotations.
-From Mv Require Import Model.Entry Model.Reconcile Model.Safety Proof.Safety.
+From Mv Require Import Model.Entry Model.Reconcile Model.Safety Model.Controller Model.ControllerCheck
+     Proof.Safety Proof.ControllerBase Proof.ControllerHalt Proof.Controller.
 Local Open Scope list_scope.
 
 (* oneEndpointEmptiedRoot fires exactly when all three are directories, the
@@ -23,3 +24,90 @@ Proof. exact root_type_iff. Qed.
 Theorem c11_subset_iff : forall f o,
   filtered_paths_are_subset f o = true <-> subseq f o.
 Proof. exact subset_iff. Qed.
+
+(* The halt cannot be dodged. With the other side equal to the ancestor [e]
+   (synchronizable content), in every mode:
+   - alpha's root deleted: the plan deletes beta's root (root-deletion check);
+   - beta's root deleted: two-way modes plan the deletion of alpha's root, the
+     one-way modes plan nothing at all for alpha;
+   - alpha's root replaced by content of another kind: the plan changes the
+     type of beta's root (root-type-change check);
+   - beta's root replaced likewise: two-way modes plan the type change of
+     alpha's root, one-way modes plan nothing for alpha. *)
+Theorem c11_covers : forall m e,
+  wf_entry true e = true ->
+  contains_root_deletion (beta_ch (reconcile m (Some e) None (Some e))) = true
+  /\ (if two_way m
+      then contains_root_deletion (alpha_ch (reconcile m (Some e) (Some e) None)) = true
+      else alpha_ch (reconcile m (Some e) (Some e) None) = [])
+  /\ (forall a, wf_entry true a = true -> kind_of a <> kind_of e ->
+        contains_root_type_change (beta_ch (reconcile m (Some e) (Some a) (Some e))) = true)
+  /\ (forall b, wf_entry true b = true -> kind_of b <> kind_of e ->
+        if two_way m
+        then contains_root_type_change (alpha_ch (reconcile m (Some e) (Some e) (Some b))) = true
+        else alpha_ch (reconcile m (Some e) (Some e) (Some b)) = []).
+Proof. exact covers_all. Qed.
+
+(* ... hence the controller's check sequence yields a halt in each of these
+   situations, and HaltedOnRootEmptied whenever the emptied rule applies *)
+Theorem c11_covers_verdict : forall m e,
+  wf_entry true e = true ->
+  safety_verdict m (Some e) None (Some e) <> None
+  /\ (two_way m = true -> safety_verdict m (Some e) (Some e) None <> None)
+  /\ (forall a, wf_entry true a = true -> kind_of a <> kind_of e ->
+        safety_verdict m (Some e) (Some a) (Some e) <> None)
+  /\ (forall b, wf_entry true b = true -> kind_of b <> kind_of e -> two_way m = true ->
+        safety_verdict m (Some e) (Some e) (Some b) <> None)
+  /\ (forall a b, emptied_spec (Some e) a b -> safety_verdict m (Some e) a b = Some HaltEmptied).
+Proof. exact covers_verdict. Qed.
+
+(* the checker applied to the results of the real functions is sound, and the
+   model's own results pass it *)
+Theorem c11_check_pred_sound : forall c, check_pred c = true -> pred_result_ok c.
+Proof. exact check_pred_sound. Qed.
+
+Theorem c11_check_pred_model :
+  (forall anc a b, check_pred (PEmptied anc a b (one_endpoint_emptied_root anc a b)) = true) /\
+  (forall cs, check_pred (PChanges cs (contains_root_deletion cs) (contains_root_type_change cs)) = true) /\
+  (forall f o, check_pred (PSubset f o (filtered_paths_are_subset f o)) = true).
+Proof. exact check_pred_model. Qed.
+
+(* No propagation, for every schedule of the controller machine
+   (Model/Controller.v) in every mode: whenever the two scans of a cycle have
+   returned contents on which the check sequence yields a halt -- and no
+   lifecycle command is active -- the loop emits nothing but the Shutdown of
+   its two endpoints (no Stage, Supply, Transition, Scan, Poll or Connect), the
+   status seen after the shutdowns is the corresponding Halted status, and this
+   lasts until a lifecycle command (pause, resume, reset, terminate, shutdown)
+   is called or a new manager is created. check_halt is the monitor that says
+   exactly this (Model/ControllerCheck.v, hmon); it is the checker applied to
+   the recorded histories of the real Manager. *)
+Theorem c11_no_propagation : forall md manual sched st tr,
+  run (init_state md manual) sched = Some (st, tr) -> check_halt md tr = true.
+Proof. exact run_halt. Qed.
+
+(* the hypotheses are satisfiable on non-trivial states *)
+Example c11_example_emptied :
+  one_endpoint_emptied_root
+    (Some (EDir [("a"%string, EFile false "d1"%string); ("b"%string, EFile false "d2"%string)]))
+    (Some (EDir [])) (Some (EDir [("a"%string, EFile false "d1"%string)])) = true
+  /\ one_endpoint_emptied_root
+    (Some (EDir [("a"%string, EFile false "d1"%string)])) (Some (EDir [])) (Some (EDir [("a"%string, EFile false "d1"%string)])) = false.
+Proof. split; reflexivity. Qed.
+
+Example c11_example_covers :
+  safety_verdict TwoWaySafe (Some (EDir [("a"%string, EFile false "d1"%string)])) None
+                 (Some (EDir [("a"%string, EFile false "d1"%string)])) = Some HaltRootDeletion
+  /\ safety_verdict OneWayReplica (Some (EDir [("a"%string, EFile false "d1"%string)])) (Some (EFile false "d2"%string))
+                 (Some (EDir [("a"%string, EFile false "d1"%string)])) = Some HaltRootTypeChange.
+Proof. split; vm_compute; reflexivity. Qed.
+
+Print Assumptions c11_emptied_iff.
+Print Assumptions c11_root_del_iff.
+Print Assumptions c11_root_type_iff.
+Print Assumptions c11_subset_iff.
+Print Assumptions c11_covers.
+Print Assumptions c11_covers_verdict.
+Print Assumptions c11_no_propagation.
+Print Assumptions c11_check_pred_sound.
+Print Assumptions c11_check_pred_model.
